@@ -50,3 +50,34 @@ fn ensure_real_path(filename: &FileName) -> &Path {
         _ => panic!("cannot format `{filename}` and emit to files"),
     }
 }
+
+/// Thin wrapper used by the out-of-tree verification harness: emit one
+/// (name, original, formatted) pair with the emitter of the given mode into a string.
+#[cfg(rust_lang_rustfmt_verif)]
+pub mod verif_hooks {
+    use super::*;
+
+    pub fn emit_pair(mode: &str, name: &str, original: &str, formatted: &str) -> String {
+        let mut emitter: Box<dyn Emitter> = match mode {
+            "json" => Box::new(JsonEmitter::default()),
+            "checkstyle" => Box::new(CheckstyleEmitter::default()),
+            "modified-lines" => Box::new(ModifiedLinesEmitter::default()),
+            _ => panic!("unknown mode"),
+        };
+        let mut out: Vec<u8> = Vec::new();
+        let filename = FileName::Real(std::path::PathBuf::from(name));
+        emitter.emit_header(&mut out).unwrap();
+        emitter
+            .emit_formatted_file(
+                &mut out,
+                FormattedFile {
+                    filename: &filename,
+                    original_text: original,
+                    formatted_text: formatted,
+                },
+            )
+            .unwrap();
+        emitter.emit_footer(&mut out).unwrap();
+        String::from_utf8(out).unwrap()
+    }
+}
